@@ -8,7 +8,7 @@ from vlib import strings as S
 
 ID = "C05"
 # look-alikes of prelude names (vlib/defs.py HOSTILE) this check's derives are immune to on the unchanged tree
-HOSTILE_OK = ['Default', 'From', 'Into', 'Result', 'Option', 'Ok', 'AsRef', 'Send', 'PhantomData', 'IterGet', 'm_matches', 'm_assert', 'm_fmt', 'c_binders']
+HOSTILE_OK = ['Default', 'From', 'Into', 'Result', 'Option', 'Ok', 'AsRef', 'Send', 'PhantomData', 'IterGet', 'm_matches', 'm_assert', 'm_fmt', 'c_binders', 'ByValue']
 PROP_FILE = "Props/C05.v"
 RULE = ("enums with N = 0..8 enabled variants (field-less, with payloads, generic, with interleaved disabled variants) and LARGE enums with "
         "255 / 256 / 257 enabled variants driven to exhaustion from either end, each built "
